@@ -363,6 +363,17 @@ def inline_fn(prog, f, no_inline=None):
 _views = {}
 
 
+class _FnMap(dict):
+    """id -> Fn; iteration over values()/items() leaves out helpers that were inlined at every call site (lookups still work)"""
+    hidden = frozenset()
+
+    def values(self):
+        return [v for k, v in dict.items(self) if k not in self.hidden]
+
+    def items(self):
+        return [(k, v) for k, v in dict.items(self) if k not in self.hidden]
+
+
 def inlined_view(prog, no_inline=None, tag=""):
     """a Program in which every function has its fresh private helpers inlined and helpers that were inlined at all their call
     sites no longer show up in lib_fns() (they remain in .fns for call-graph purposes)."""
@@ -380,7 +391,7 @@ def inlined_view(prog, no_inline=None, tag=""):
     v.dir = prog.dir
     v.adts = prog.adts
     v.crates = prog.crates
-    v.fns = dict(prog.fns)
+    v.fns = _FnMap(prog.fns)
     v._children = None
     v._cg = None
     v.hidden = set()
@@ -413,5 +424,6 @@ def inlined_view(prog, no_inline=None, tag=""):
             ab = _async_body(prog, prog.fns[fid])
             if ab is not None:
                 v.hidden.add(ab[0].id)
+    v.fns.hidden = frozenset(v.hidden)
     _views[key] = v
     return v
